@@ -66,6 +66,7 @@ class ComputeMuH(FunctionContract):
     prop = "C04"
     target = MC + "compute_mu_h"
     name = "compute_mu_h"
+    cases = ("first-axis", "another-axis-of-a-per-axis-grid")
 
     def __init__(self):
         def inv(L, g):
@@ -78,7 +79,15 @@ class ComputeMuH(FunctionContract):
         hook_measure_ext(interp)
 
     def setup(self, vc, case):
-        grid, ax, h, o = wf_grid(vc)
+        if case == "another-axis-of-a-per-axis-grid":
+            # copula chain on a grid whose axes differ (credit grid with different levels): margin k uses axis k
+            grid0, ax0, h, o = wf_grid(vc, d=2, name="first_axis")
+            grid, ax, _, _ = wf_grid(vc, d=2)
+            vc.assume(And(vc.path.inputs["origin"] == o, ax.length == ax0.length)) if False else None
+            grid.fields["axes"] = [ax0, ax]
+            o = grid.fields["origin_coordinate"].fields["value"][1]
+        else:
+            grid, ax, h, o = wf_grid(vc)
         basic_axioms(vc)
         g = vc.ghost
         g.update(ax=ax, o=o, h=h)
@@ -455,7 +464,161 @@ class CopulaInitialisation(FunctionContract):
         return out
 
 
-UNITS = [ComputeMuH(), Representations(), Initialisation(), MeanIdentity(), VolAdjustment(), ChainConstructor(), CopulaInitialisation()]
+class CopulaChainConstructor(FunctionContract):
+    """MarkovChainLevyCopula.__init__ (d = 2): deep copy, every margin truncated to its axis' bounds BEFORE it is switched
+    to the TILDE representation (mean of each truncated margin preserved), caller's model untouched."""
+    prop = "C04"
+    target = "rpylib.process.markovchain.markovchainlevycopula:MarkovChainLevyCopula.__init__"
+    cases = ("ZERO", "CENTER", "ONEONE")
+
+    def __init__(self):
+        self.name = "MarkovChainLevyCopula.__init__"
+
+    def configure(self, interp):
+        from pyvc import ctx
+        P_ = "rpylib.process.markovchain.markovchainlevycopula:"
+        interp.hooks["rpylib.process.levyprocess:LevyProcess.__init__"] = lambda it, f, b: b["self"].fields.update(model=b["model"])
+        interp.hooks["rpylib.distribution.samplingfactory:compute_intensity_of_jumps"] = lambda it, f, b: ctx.PATH.ghost["lam"]
+        interp.hooks["rpylib.distribution.samplingfactory:create_sampling_method"] = lambda it, f, b: None
+        interp.hooks[P_ + "MCLevyCopulaSimulation.__init__"] = lambda it, f, b: None
+        interp.hooks["rpylib.model.levycopulamodel:LevyCopulaModel.dimension"] = lambda it, f, b: 2
+
+        def int_x(it, f, b):
+            k = b["self"].fields["tag"]
+            e = lambda x: Sym(NEG_INF, "r") if (not is_sym(x) and x == -INF) else (Sym(POS_INF, "r") if (not is_sym(x) and x == INF) else x)
+            return Sym(MUK[k](as_real_term(lift(e(b["a"]))), as_real_term(lift(e(b["b"])))), "r")
+        interp.hooks[LM + "LevyMeasure.integrate_against_x"] = int_x
+        interp.hooks[LM + "LevyMeasure.jump_of_finite_variation"] = lambda it, f, b: ctx.PATH.ghost["fv"][b["self"].fields["tag"]]
+
+    def setup(self, vc, r0):
+        grid, ax, h, o = wf_grid(vc, d=2, quantified=False)
+        axes = [vc.seq(f"axis{k}", "r", min_len=3) for k in range(2)]
+        grid.fields["axes"] = axes
+        grid.fields["truncations"] = [(a_.raw(0), a_.raw(a_.length - 1)) for a_ in axes]
+        for a_ in axes:
+            vc.assume(a_.raw(0) < a_.raw(a_.length - 1))
+        fv = [vc.bool(f"finite_variation{k}") for k in range(2)]
+        a = vc.reals("a", 2)
+        sig = vc.reals("sigma", 2)
+        vc.assume(And(*[s_ >= 0 for s_ in sig]))
+        R = lambda n: vc.enum(LM + "LevyRepresentation", n)
+        nus = [vc.obj(LM + "LevyMeasure", tag=k) for k in range(2)]
+        models = [vc.obj(LM + "LevyModel", levy_triplet=vc.new(LM + "LevyTriplet", sig[k], nus[k], a[k], R(r0)), _original_drift=a[k]) for k in range(2)]
+        cm = vc.obj("rpylib.model.levycopulamodel:LevyCopulaModel", models=models, _marginal_levy_measure=list(nus))
+        vc.ghost.update(fv=fv, a=a, r0=r0, nus=nus, models=models, axes=axes, lam=vc.real("intensity"), cm=cm)
+        method = vc.enum("rpylib.distribution.sampling:SamplingMethod", "INVERSION")
+        return dict(self=vc.obj("rpylib.process.markovchain.markovchainlevycopula:MarkovChainLevyCopula"), levy_copula_model=cm, grid=grid, method=method)
+
+    def ensures(self, result, self_=None, levy_copula_model=None, grid=None, **kw):
+        from pyvc import ctx
+        g = ctx.PATH.ghost
+        fv, a0, r0, axes = g["fv"], g["a"], g["r0"], g["axes"]
+        mt = self_.fields["model"]
+        out = {"works-on-a-copy": mt is not levy_copula_model}
+        for k in range(2):
+            om = levy_copula_model.fields["models"][k].fields["levy_triplet"]
+            out[f"margin{k}:callers-model-untouched"] = And(om.fields["a"] == a0[k], om.fields["nu"] is g["nus"][k], om.fields["representation"].name == r0)
+            t = mt.fields["models"][k].fields["levy_triplet"]
+            nu = t.fields["nu"]
+            l, r = axes[k].raw(0), axes[k].raw(axes[k].length - 1)
+            is_tr = getattr(nu, "cls", None) is not None and nu.cls.name == "TruncatedLevyMeasure"
+            out[f"margin{k}:truncated-to-its-own-axis-bounds"] = is_tr and And(nu.fields["truncations"][0] == l, nu.fields["truncations"][1] == r)
+            out[f"margin{k}:tilde-representation"] = t.fields["representation"].name == "TILDE"
+            F = lambda x, y: Sym(MUK[k](as_real_term(lift(x)), as_real_term(lift(y))), "r")
+            clip = lambda x: smax(smin(x, r), l)
+            K = F(clip(-1), clip(1))
+            T = F(l, clip(-1)) + F(clip(1), r)
+            mean = lambda rep, av: {"CENTER": av, "ONEONE": av + T, "ZERO": av + K + T}.get(rep, If(fv[k], av + K + T, av + T))
+            out[f"margin{k}:mean-of-the-truncated-margin-preserved (truncate, then compensate)"] = mean("TILDE", t.fields["a"]) == mean(r0, a0[k])
+        return out
+
+    def replay(self, model, clause, case):
+        if "mean" not in clause:
+            return None
+        from contracts import battery
+        from scipy.integrate import quad
+        from rpylib.grid.spatial import CTMCGridGeometric
+        from rpylib.process.markovchain.markovchainlevycopula import MarkovChainLevyCopula
+        from rpylib.process.markovchain.markovchain import compute_mu_h
+        from rpylib.distribution.sampling import SamplingMethod
+        cm = battery.copula_model(2, "independent", margins="cgmy")
+        grid = CTMCGridGeometric.create_with_bounds(h=0.05, truncations=(-0.3, 0.4), dimension=2, nb_of_points_on_each_side=4)
+        proc = MarkovChainLevyCopula(levy_copula_model=cm, grid=grid, method=SamplingMethod.BINARYSEARCHTREEADAPTED)
+        worst = None
+        for k, (m0, mt) in enumerate(zip(cm.models, proc.model.models)):
+            t0, tt = m0.levy_triplet, mt.levy_triplet
+            rep, a0, nu = t0.representation.name, t0.a, t0.nu
+            l, r = grid.truncations[k]
+            f = lambda x: x * float(nu(x))
+            T = (quad(f, l, -1)[0] if l < -1 else 0.0) + (quad(f, 1, r)[0] if r > 1 else 0.0)
+            fv = nu.jump_of_finite_variation()
+            Kq = lambda: quad(f, max(-1, l), 0, limit=200)[0] + quad(f, 0, min(1, r), limit=200)[0]
+            mean0 = {"CENTER": lambda: a0, "ONEONE": lambda: a0 + T, "ZERO": lambda: a0 + Kq() + T, "TILDE": lambda: a0 + Kq() + T if fv else a0 + T}[rep]()
+            mean_t = (tt.a + Kq() + T) if fv else tt.a + T
+            info = {"margin": k, "declared_representation": rep, "mean_before": mean0, "mean_after_truncate_and_switch": mean_t}
+            if abs(mean0 - mean_t) > 1e-8:
+                return (True, info)
+            worst = info
+        return (False, worst)
+
+
+class CopulaMarginMean(Lemma):
+    """property statement for one margin of a copula chain, from the two contracts above: the constructor compensates margin
+    k's drift with the cut-off radius of ITS OWN variation regime, initialisation adds the first moment outside the radius
+    of the COPULA-WIDE regime (finite variation iff every margin is); the chain keeps the margin's mean iff the two agree."""
+    prop = "C04"
+    name = "property:copula-margin-mean"
+
+    def prove(self, vc, case):
+        fv_k, fv_all, a = vc.bool("margin_finite_variation"), vc.bool("all_margins_finite_variation"), vc.real("a_tilde")
+        vc.assume(Implies(fv_all, fv_k))          # the copula is of finite variation only if this margin is
+        ninf, pinf = Sym(NEG_INF, "r"), Sym(POS_INF, "r")
+        vc.assume(And(ninf < -1, pinf > 1))
+        for x, y, z in ((ninf, -1, 0), (0, 1, pinf), (-1, 0, 1)):
+            vc.assume(additivity(x, y, z, F=MU1))
+        comp = If(fv_all, MU1(ninf, 0) + MU1(0, pinf), MU1(ninf, -1) + MU1(1, pinf))     # contract of CopulaInitialisation
+        mean = spec_mean("TILDE", a, fv_k)                                               # contract of CopulaChainConstructor
+        vc.check(self.name + "::same-variation-regime", Implies(fv_k == fv_all, a + comp == mean))
+        vc.check(self.name + "::mixed-variation-regimes", Implies(fv_k != fv_all, a + comp == mean))
+
+    def replay(self, model, clause, case):
+        if "mixed" not in clause:
+            return None
+        from scipy.integrate import quad
+        from rpylib.model.levycopulamodel import LevyCopulaModel
+        from rpylib.distribution.levycopula import IndependentComponentsCopula
+        from rpylib.model.levymodel.mixed.hem import HEMParameters, HEMModel
+        from rpylib.model.utils import create_levy_model, ModelType
+        from rpylib.grid.spatial import CTMCUniformGrid
+        from rpylib.process.markovchain.markovchainlevycopula import MarkovChainLevyCopula
+        from rpylib.process.markovchain.markovchain import compute_mu_h
+        from rpylib.distribution.sampling import SamplingMethod
+        from rpylib.product.product import Product
+        from rpylib.product.underlying import Spot
+        from rpylib.product.payoff import Forward
+        hem = HEMModel(parameters=HEMParameters(sigma=0.1, p=0.6, eta1=25.0, eta2=40.0, intensity=5.0))
+        cgmy = create_levy_model(ModelType.CGMY)(c=0.1, g=10.0, m=8.0, y=1.3)
+        cm = LevyCopulaModel(models=[hem, cgmy], copula=IndependentComponentsCopula())
+        grid = CTMCUniformGrid(h=0.1, model=cm)
+        proc = MarkovChainLevyCopula(levy_copula_model=cm, grid=grid, method=SamplingMethod.BINARYSEARCHTREEADAPTED)
+        # initialisation without the diffusion-matrix pool: only the drift part is needed
+        import rpylib.process.markovchain.markovchainlevycopula as M
+        orig = M.MCLevyCopulaSimulationFixedTimes
+        try:
+            M.MCLevyCopulaSimulationFixedTimes = lambda p: None
+            proc.initialisation(Product(payoff_underlying=Spot(), payoff=Forward(strike=1.0), maturity=1.0))
+        finally:
+            M.MCLevyCopulaSimulationFixedTimes = orig
+        nu = hem.levy_triplet.nu
+        l, r = grid.truncations[0]
+        mean = hem.levy_triplet.a + quad(lambda x: x * float(nu(x)), l, 0)[0] + quad(lambda x: x * float(nu(x)), 0, r)[0]      # ZERO representation
+        nut = proc.model.models[0].levy_triplet.nu
+        mu_h = compute_mu_h(nut, grid, grid.axes[0], grid.origin_coordinate.value[0])
+        chain = float(np.ravel(proc.process_drift())[0]) + float(mu_h)
+        return (abs(chain - mean) > 1e-6, {"margins": "HEM (finite variation) + CGMY y=1.3", "HEM_margin_chain_mean": chain, "HEM_truncated_mean": float(mean)})
+
+
+UNITS = [ComputeMuH(), Representations(), Initialisation(), MeanIdentity(), VolAdjustment(), ChainConstructor(), CopulaInitialisation(), CopulaChainConstructor(), CopulaMarginMean()]
 ASSUMPTIONS = ["A1: floats are mathematical reals", "A6: integrate_against_x / xx are additive interval functions of a measure (C09)",
                "the first-moment integrals K, T are finite where a representation needs them (as the library assumes)"]
 TRUSTED_BASE = ["z3 5.1 (LRA/NRA + arrays + uninterpreted functions)", "pyvc interpreter + numpy models"]
